@@ -1185,7 +1185,8 @@ pub mod append {
 			m.insert("start".into(), bytes_json(&gb));
 			m.insert("sv".into(), json!([]));
 			m.insert("garbage".into(), json!(true));
-			let batch: Vec<T> = (0..1).map(|_| T::gen(&mut g)).collect();
+			// a garbage prefix is refused whatever the batch, also an empty one
+			let batch: Vec<T> = (0..(gb.len() % 2)).map(|_| T::gen(&mut g)).collect();
 			let mut keep = None;
 			let j = step_json(Value::Array(batch.iter().map(|x| x.abs()).collect()), guarded(|| C::append_or_new(gb.clone(), batch.iter())), &mut keep);
 			m.insert("steps".into(), json!([j]));
